@@ -136,7 +136,9 @@ let handle (p : string) : string =
     if s.st_hz then
       "crash=ASAN:heap-use-after-free;known=C04-sink-push-reentrant-close;" ^ cls ^ "+hazard"
     else
-      Printf.sprintf "obs=%s;cnt=%s;once=%s;srv=%s;%s"
+      (* sigpipe: the daemon ignores SIGPIPE (OlaServer::Init) and no write to a half-closed client
+         ever raises it: always 0 *)
+      Printf.sprintf "obs=%s;cnt=%s;once=%s;sigpipe=0;srv=%s;%s"
         (String.concat "/" (List.rev !obs))
         (if cnt = [] then "-" else String.concat "," (List.map string_of_int cnt))
         (bool01 once) (String.concat "/" (List.rev !srv)) cls
